@@ -16,6 +16,7 @@ def run(ctx):
     res = ctx.prove()
     n = 5000 if ctx.quick() else 60000
     tc.run_stream(ctx, "batch-broadcast-kernels", OPS, n, backend="naive")
+    tc.run_stream(ctx, "batch-broadcast-kernels-eigen", OPS, n, backend="eigen")
     summ = tc.optional_part(ctx, "progcheck", "run_mode", "batch", 3000 if ctx.quick() else 40000)
     if summ is not None:
         ctx.cov["program_level_batch_law"] = summ
